@@ -197,7 +197,10 @@ def linalg_call(L, e, d, name, args):
         fn = 'fabs' if rvi[0] in ('double', 'float') else 'abs'
         body = 'return (%s){%s};' % (rct, ', '.join('%s(a.%s)' % (fn, COMP[k]) for k in range(n)))
     elif name == 'isfinite' and len(args) == 1 and rvi:
-        body = 'return (%s){%s};' % (rct, ', '.join('(isfinite(a.%s) != 0)' % COMP[k] for k in range(n)))
+        L.helper('verif_fpclass', 'static inline _Bool verif_isnan(double x) { return x != x; }\n'
+                 'static inline _Bool verif_isinf(double x) { return x == (1.0 / 0.0) || x == -(1.0 / 0.0); }\n'
+                 'static inline _Bool verif_isfinite(double x) { return x == x && x != (1.0 / 0.0) && x != -(1.0 / 0.0); }')
+        body = 'return (%s){%s};' % (rct, ', '.join('verif_isfinite((double)a.%s)' % COMP[k] for k in range(n)))
     elif name in ('all', 'any') and len(args) == 1:
         body = 'return %s;' % ((' && ' if name == 'all' else ' || ').join('(a.%s != 0)' % COMP[k] for k in range(n)))
     elif name == 'sum' and len(args) == 1:
@@ -216,6 +219,9 @@ def linalg_call(L, e, d, name, args):
         body = 'return a.x * b.y - a.y * b.x;'
     elif name == 'length2' and len(args) == 1:
         body = 'return %s;' % ' + '.join('a.%s * a.%s' % (COMP[k], COMP[k]) for k in range(n))
+    elif name == 'length' and len(args) == 1:
+        # linalg: length(a) = std::sqrt(length2(a))
+        body = 'return sqrt(%s);' % ' + '.join('a.%s * a.%s' % (COMP[k], COMP[k]) for k in range(n))
     elif name in ('operator==', 'operator!=') and len(args) == 2 and vi[0] and vi[1]:
         # linalg: compare(a,b) == 0 with compare = first component pair that differs (a.x != b.x ? (a.x,b.x) : ...)
         eq = ' && '.join('a.%s == b.%s' % (COMP[k], COMP[k]) for k in range(n))
